@@ -511,7 +511,13 @@ impl<'a> EbpfVmMbuff<'a> {
         };
         #[cfg(feature = "std")]
         {
-            self.jit = Some(jit::JitMemory::new(prog, &self.helpers, true, false)?);
+            self.jit = Some(jit::JitMemory::new(
+                prog,
+                &self.helpers,
+                true,
+                false,
+                self.stack_usage.as_ref(),
+            )?);
         }
         #[cfg(not(feature = "std"))]
         {
@@ -528,6 +534,7 @@ impl<'a> EbpfVmMbuff<'a> {
                 &self.helpers,
                 true,
                 false,
+                self.stack_usage.as_ref(),
             )?);
         }
         Ok(())
@@ -1146,7 +1153,13 @@ impl<'a> EbpfVmFixedMbuff<'a> {
         };
         #[cfg(feature = "std")]
         {
-            self.parent.jit = Some(jit::JitMemory::new(prog, &self.parent.helpers, true, true)?);
+            self.parent.jit = Some(jit::JitMemory::new(
+                prog,
+                &self.parent.helpers,
+                true,
+                true,
+                self.parent.stack_usage.as_ref(),
+            )?);
         }
         #[cfg(not(feature = "std"))]
         {
@@ -1163,6 +1176,7 @@ impl<'a> EbpfVmFixedMbuff<'a> {
                 &self.parent.helpers,
                 true,
                 true,
+                self.parent.stack_usage.as_ref(),
             )?);
         }
         Ok(())
@@ -1675,6 +1689,7 @@ impl<'a> EbpfVmRaw<'a> {
                 &self.parent.helpers,
                 false,
                 false,
+                self.parent.stack_usage.as_ref(),
             )?);
         }
         #[cfg(not(feature = "std"))]
@@ -1692,6 +1707,7 @@ impl<'a> EbpfVmRaw<'a> {
                 &self.parent.helpers,
                 false,
                 false,
+                self.parent.stack_usage.as_ref(),
             )?);
         }
         Ok(())
